@@ -20,7 +20,7 @@ import (
 )
 
 type Op struct {
-	K    string `json:"k"` // new add add6 rm mode range putb putc putr frame
+	K    string `json:"k"` // new add add6 rm mode range putb putc putr frame snap
 	M    uint8  `json:"m,omitempty"`
 	Mac  []byte `json:"mac,omitempty"`
 	IP   []byte `json:"ip,omitempty"`
@@ -33,11 +33,11 @@ type Case struct {
 }
 
 type env struct {
-	obj                                                    *bpfrun.Object
-	nat                                                    *bpfrun.Native
-	kernel                                                 bool
+	obj                                                *bpfrun.Object
+	nat                                                *bpfrun.Native
+	kernel                                             bool
 	kernelRuns, nativeRuns, compared, disagree, faults int
-	note                                                   string
+	note                                               string
 }
 
 func must(err error) {
@@ -198,6 +198,21 @@ func (e *env) run(c Case) vh.Case {
 				}
 			}
 			tr = append(tr, fmt.Sprintf("(PutRange %d %s, %s)", o.Ones, bs(o.IP), out))
+		case "snap": // raw dump of the bindings map the program reads (kernel map when available)
+			var kvs []bpfrun.KV
+			var err error
+			if e.kernel {
+				kvs, err = e.obj.Dump("subscriber_bindings")
+			} else {
+				kvs, err = e.nat.Dump("subscriber_bindings")
+			}
+			must(err)
+			var it []string
+			for _, kv := range kvs {
+				it = append(it, vh.Pair(bs(kv.Key), bs(kv.Value)))
+			}
+			tags[fmt.Sprintf("snap:entries=%d", len(kvs))] = true
+			tr = append(tr, fmt.Sprintf("(SnapB, OSnapB %s)", vh.List(it)))
 		case "frame":
 			res, err := e.nat.Run("antispoof_ingress", o.F, nil)
 			must(err)
@@ -460,7 +475,9 @@ func genMgr(r *vh.Rng, thorough bool) Case {
 				c.Ops = append(c.Ops, Op{K: "add6", Mac: s.mac, IP: s.v6}, Op{K: "add", Mac: s.mac, IP: s.v4})
 			}
 		case k == 5:
-			c.Ops = append(c.Ops, Op{K: "rm", Mac: s.mac})
+			c.Ops = append(c.Ops, Op{K: "rm", Mac: s.mac}, Op{K: "snap"})
+		case k == 9:
+			c.Ops = append(c.Ops, Op{K: "add6", Mac: s.mac, IP: s.v6}, Op{K: "snap"}) // possibly IPv6-only
 		case k == 6:
 			c.Ops = append(c.Ops, Op{K: "mode", M: modes[r.Intn(len(modes))]})
 		case k == 7 && !guard:
@@ -506,6 +523,75 @@ func genMgr(r *vh.Rng, thorough bool) Case {
 	return c
 }
 
+// lifecycle stream: EVERY sequence over {AddBinding, AddBindingV6, RemoveBinding} of length 1..maxLen for one
+// MAC (v4-only, v6-only, both orders, remove-then-re-add, remove twice, remove of a never-added MAC, ...),
+// under three mode set-ups; after every control-plane call: raw dump of the kernel bindings map and the
+// program's verdict for the bound v4 / v6 sources and a near-miss of each, from that MAC and from a
+// never-bound MAC.
+func genLife(maxLen int) []Case {
+	var cs []Case
+	mac := []byte{2, 0xaa, 0, 0, 0, 1}
+	other := []byte{2, 0xaa, 0, 0, 0, 2}
+	v6 := []byte{0x20, 0x01, 0x0d, 0xb8, 0, 7, 0, 0, 0, 0, 0, 0, 0, 0, 0x12, 0x34}
+	v6b := append([]byte(nil), v6...)
+	v6b[15] ^= 1
+	alphabet := []string{"add", "add6", "rm"}
+	var seqs [][]string
+	var rec func(cur []string)
+	rec = func(cur []string) {
+		if len(cur) > 0 {
+			seqs = append(seqs, append([]string(nil), cur...))
+		}
+		if len(cur) == maxLen {
+			return
+		}
+		for _, a := range alphabet {
+			rec(append(cur, a))
+		}
+	}
+	rec(nil)
+	type setup struct {
+		pre []Op
+		v4  []byte
+	}
+	setups := []setup{
+		{[]Op{{K: "mode", M: 1}}, []byte{10, 1, 1, 10}},                 // strict everywhere, palindromic address (inside the guards)
+		{[]Op{{K: "mode", M: 1}}, []byte{10, 20, 30, 40}},               // strict everywhere, ordinary address
+		{[]Op{{K: "new", M: 1}}, []byte{10, 1, 1, 10}},                  // bindings strict, default mode left disabled
+		{[]Op{{K: "mode", M: 3}, {K: "new", M: 1}}, []byte{7, 7, 7, 7}}, // bindings strict, default log-only
+	}
+	for si, st := range setups {
+		for _, sq := range seqs {
+			if (si == 1 && len(sq) > maxLen-1) || (si >= 2 && len(sq) > maxLen-2) {
+				continue
+			}
+			c := Case{Ops: append([]Op(nil), st.pre...)}
+			v4b := append([]byte(nil), st.v4...)
+			v4b[3]++
+			probe := func() {
+				c.Ops = append(c.Ops, Op{K: "snap"},
+					Op{K: "frame", F: frame(mac, 0x0800, st.v4, 34)}, Op{K: "frame", F: frame(mac, 0x0800, v4b, 34)},
+					Op{K: "frame", F: frame(mac, 0x86dd, v6, 54)}, Op{K: "frame", F: frame(mac, 0x86dd, v6b, 54)},
+					Op{K: "frame", F: frame(other, 0x0800, st.v4, 34)}, Op{K: "frame", F: frame(other, 0x86dd, v6, 54)})
+			}
+			probe()
+			for _, a := range sq {
+				switch a {
+				case "add":
+					c.Ops = append(c.Ops, Op{K: "add", Mac: mac, IP: st.v4})
+				case "add6":
+					c.Ops = append(c.Ops, Op{K: "add6", Mac: mac, IP: v6})
+				case "rm":
+					c.Ops = append(c.Ops, Op{K: "rm", Mac: mac})
+				}
+				probe()
+			}
+			cs = append(cs, c)
+		}
+	}
+	return cs
+}
+
 const header = `From Coq Require Import NArith List. Import ListNotations.
 From Verif Require Import Base.Word Model.TcQos Model.TcAntispoof Model.AntispoofMgr Model.TcAntispoofSpec Model.TcAntispoofCheck.
 Local Open Scope N_scope.
@@ -520,7 +606,7 @@ Print R.
 func needsKernel(c Case) bool {
 	for _, o := range c.Ops {
 		switch o.K {
-		case "add", "add6", "rm", "mode", "range":
+		case "add", "add6", "rm", "mode", "range", "new":
 			return true
 		}
 	}
@@ -586,6 +672,11 @@ func main() {
 	m := func() map[string]interface{} { x := ex(); x["exhaustive"] = true; return x }
 	rawOut := runAll(raw)
 	vh.Emit(cfg, "raw", header, footer, rawOut, m())
+	lifeLen := 4
+	if cfg.Thorough() {
+		lifeLen = 5
+	}
+	vh.Emit(cfg, "life", header, footer, runAll(genLife(lifeLen)), m())
 	n := 150
 	if cfg.Thorough() {
 		n = 1200
